@@ -216,13 +216,26 @@ def prop_meta(pid):
 
 
 # ------------------------------------------------------------------------------------------------
+_OBL = None
+
+
+def obligation_names():
+    """Every string literal used as a kani::assert message in the proof files = our named obligations."""
+    global _OBL
+    if _OBL is None:
+        _OBL = set()
+        for path in glob.glob(os.path.join(KANI_DIR, "*.rs")):
+            _OBL.update(re.findall(r'"([A-Za-z_][A-Za-z0-9_<>]*(?:::[A-Za-z0-9_<>]+)+[^"]*)"', open(path).read()))
+    return _OBL
+
+
 def classify_failure(chk):
     """Kind of a failed CBMC check: 'unwind' (bound too small: undecided), 'named' (our obligation),
     'contract' (F1 clause), 'safety' (memory safety / arithmetic / panic in the real code)."""
     d = chk["description"]
     if "unwinding assertion" in d or "recursion unwinding" in d:
         return "unwind"
-    if "::contract::ensures" not in d and "::" in d and re.match(r"^[A-Za-z_][A-Za-z0-9_<>]*(::[A-Za-z0-9_<>]+)+", d):
+    if d in obligation_names():
         return "named"
     if "::contract::ensures" in d or ("Check that" in d and "assignable" in d):
         return "contract"
@@ -319,6 +332,8 @@ def main(a):
         per_harness.append(rec)
         # vacuity: named obligations must be reachable, covers must be satisfied
         vac = [c for c in unreach if classify_failure(c) == "named"] + [c for c in covers if c["status"] == "UNSATISFIABLE"]
+        if h.kind != "complete":
+            vac = [c for c in covers if c["status"] == "UNSATISFIABLE"]
         if vac and r["status"] == "SUCCESSFUL":
             undecided.append("%s: vacuous obligation(s): %s" % (h.name, "; ".join(c["description"] for c in vac[:4])))
         if h.mustfail:
